@@ -128,6 +128,8 @@ def run_case(case):
     if d is not None:
         t, what, direction, i, a, b = d
         flag = structural_flag(case, r, m, d)
+        if what == "offer" and a is None and b is not None:
+            flag = "never_offered"       # the item is still on the belt when the run ends (T is far beyond the script)
         res.violate((kind, acc, what, direction, flag),
                     "item #%d: %s instant %s in the implementation, %s in the kinematic model (first deviation at t=%s)" % (
                         i, "admission" if what == "admit" else "offer", a, b, t))
